@@ -72,6 +72,7 @@ type Scenario struct {
 	Lens      []int         `json:"lens,omitempty"` // pad sweep
 	Pads      []int         `json:"pads,omitempty"`
 	Discarded string        `json:"discarded,omitempty"`
+	Rounds    int           `json:"rounds,omitempty"`  // real-bind scenarios
 	Partial   bool          `json:"partial,omitempty"` // the last recorded step did not settle: judged by the property only
 	Crash     string        `json:"crash,omitempty"`
 }
@@ -880,6 +881,13 @@ func buildJobs(seed int64, n int, big bool, corpus, replayIn string) []job {
 				runPad(sc)
 				return sc
 			}
+			if strings.HasPrefix(sc.Gen, "real-bind") {
+				runRealBind(sc)
+				if sc.Discarded != "" && !poisoned && replayIn == "" {
+					runRealBind(sc)
+				}
+				return sc
+			}
 			evs := sc.Evs
 			run(sc, fixed(evs))
 			if sc.Discarded != "" && !poisoned && replayIn == "" {
@@ -924,6 +932,7 @@ func buildJobs(seed int64, n int, big bool, corpus, replayIn string) []job {
 	for _, sc := range directed() {
 		jobs = append(jobs, fixedJob(sc))
 	}
+	jobs = append(jobs, fixedJob(realBindScenario(2, 150)), fixedJob(realBindScenario(3, 100)))
 	master := rand.New(rand.NewSource(seed)) // ONE PRNG: it deals a seed to every random scenario
 	for i := 0; i < n; i++ {
 		s := master.Int63()
